@@ -285,6 +285,49 @@ def _facts_smt(st, solver, keys, res):
     return True, table
 
 
+class model_sampler:
+    """with model_sampler() as ms: inside the block every Solver.solve() call is answered by Solver.find_answer() on the same
+    program, after adding 'differs from every model handed out so far on at least one answer key' (keys matched by position: the
+    puzzle functions build their programs deterministically).  The caller re-runs the real solve_<puzzle> function and gets a FULL
+    model of the real encoding back through the arrays it returns - which an independent rule checker can then accept or refute.
+    (find_answer itself stays under M-SOLVE: the model is re-evaluated against the posted constraints as always.)"""
+
+    def __init__(self):
+        self.seen = []
+
+    def __enter__(self):
+        import cspuz
+
+        self.cls = cspuz.Solver
+        self.saved = self.cls.solve
+        sampler = self
+
+        def solve(solver, backend=None):
+            keys = [v for v, k in zip(solver.variables, solver.is_answer_key) if k]
+            for prev in sampler.seen:
+                if len(prev) != len(keys):
+                    continue
+                lits = []
+                for v, val in zip(keys, prev):
+                    if isinstance(val, bool):
+                        lits.append(~v if val else v)
+                    else:
+                        lits.append(v != val)
+                if lits:
+                    solver.ensure(cspuz.fold_or(lits))
+            ok = solver.find_answer(backend)
+            if ok:
+                sampler.seen.append([v.sol for v in keys])
+            return ok
+
+        self.cls.solve = solve
+        return self
+
+    def __exit__(self, *a):
+        self.cls.solve = self.saved
+        return False
+
+
 def install(ctx, owner="C01", brute_cap=4096, smt=False, judge_exc=False, describe=None):
     global _state
     if not _orig:
